@@ -364,7 +364,7 @@ KEEPALIVE = 8
 
 def scenario(cls, phase, app, sig, graceful=4, bind="unix"):
     """app: 'finish' (needs 1.2 s), 'overrun' (graceful + 3 s), 'never' (60 s)"""
-    d = {"finish": 1.2, "overrun": graceful + 3.0, "never": 60.0}[app]
+    d = {"finish": 2.6, "overrun": graceful + 3.0, "never": 60.0}[app]
     return {"cls": cls, "phase": phase, "app": app, "d": d, "sig": sig, "graceful": graceful, "bind": bind}
 
 
